@@ -13,7 +13,7 @@
    "B<n>" / "S<n>" out; OutPoint "<txid hex>:<vout>"; sighash types = their numeric value. *)
 From Coq Require Import List NArith Bool.
 From Coq.Strings Require Import Byte.
-From EV Require Import Base.Bytes Base.Codec Gen.Tables Model.Tx Model.Block Model.Text Model.Serde Model.SerdePset Extract.RunUtil.
+From EV Require Import Base.Bytes Base.Codec Gen.Tables Model.Tx Model.Block Model.Text Model.Serde Model.SerdePset Base.Base64 Model.Address Extract.RunUtil Extract.RunAddr.
 Import ListNotations.
 Open Scope N_scope.
 
@@ -287,6 +287,33 @@ Definition run_pset (caps pts oracle value : bytes) : bytes :=
       "J "%lb ++ render_json j ++ sp ++ verdict true j ++ sp ++ verdict true j ++ " C "%lb ++ show_hex (render_cbor b) ++ sp ++ verdict false b
   | _, _, _, _ => err "parse" end.
 
+(* C20 ad <net> <pkh|sh|wp<ver>> <payload hex> <blinder hex|->: an Address (the C06 model) printed, parsed back, and through serde (a string in both formats) *)
+Definition run_address (net kind pl bl : bytes) : bytes :=
+  let payload_of :=
+    if bytes_eqb kind "pkh"%lb then option_map PubkeyHash (hexarg pl)
+    else if bytes_eqb kind "sh"%lb then option_map ScriptHash (hexarg pl)
+    else match kind with
+         | x77 :: x70 :: v => match N_of_dec v, hexarg pl with Some n, Some d => Some (WitnessProgram n d) | _, _ => None end
+         | _ => None end in
+  match params_of_name net, payload_of, hexarg bl with
+  | Some p, Some pay, Some blinder =>
+      let a := mkAddr p pay (match blinder with [] => None | _ => Some blinder end) in
+      let s := show_addr_string a in
+      let tv := match parse_str s with
+                | AOk a' => if bytes_eqb (show_addr a') (show_addr a) then "ok same"%lb else "ok diff"%lb
+                | AErr _ => "err"%lb end in
+      show_hex s ++ sp ++ tv ++ " J "%lb ++ render_json (json_view (ser_string (fun x : bytes => x) s)) ++ sp ++ tv
+      ++ " C "%lb ++ show_hex (render_cbor (cbor_view (ser_string (fun x : bytes => x) s))) ++ sp ++ tv
+  | _, _, _ => err "value" end.
+(* C20 pt <hex of a PSET>: the base64 text form (Display = padded standard base64 of the serialization; FromStr = decode, then C07's binary decoder) *)
+Definition run_pset_text (h : bytes) : bytes :=
+  match hexarg h with
+  | None => err "hex"
+  | Some b =>
+      let s := b64_enc b in
+      "len%3="%lb ++ dec_of_N (N.of_nat (length b) mod 3) ++ sp ++ s ++ sp ++
+      match b64_dec s with Some b' => if bytes_eqb b' b then "ok same"%lb else "ok diff"%lb | None => "err"%lb end end.
+
 (* C20 lc <constructor> <n>: LockTime through a constructor (from_consensus; from_height / Blocks / From<Height> check n < threshold;
    from_time / Seconds / From<Time> check n >= threshold), printed and parsed back *)
 Definition run_locktime_ctor (ctor n : bytes) : bytes :=
@@ -322,7 +349,9 @@ Definition run (args : list bytes) : bytes :=
         | None => err "value" end
       else err "kind"
   | [k; name] => if bytes_eqb k "dm"%lb then run_probe name
+                 else if bytes_eqb k "pt"%lb then run_pset_text name
                  else err "kind"
-  | [k; ty; caps; pts; a] => if bytes_eqb k "sd"%lb then run_serde ty caps pts a else err "kind"
+  | [k; ty; caps; pts; a] => if bytes_eqb k "sd"%lb then run_serde ty caps pts a
+                             else if bytes_eqb k "ad"%lb then run_address ty caps pts a else err "kind"
   | [k; caps; pts; oracle; value; _] => if bytes_eqb k "ps"%lb then run_pset caps pts oracle value else err "kind"
   | _ => err "args" end.
